@@ -73,7 +73,7 @@ COALESCE = {"unlink", "script", "read"}
 CLS_OF_LABEL = {
     "exists": "exists", "unlink": "unlink", "rename": "rename", "connect": "connect", "script": "script",
     "cursor": "cursor", "read1": "read", "bootcheck": "bootcheck", "insert": "write", "commit": "commit", "read2": "read",
-    "close": "close",
+    "close": "close", "backup": "backup",
 }
 CLOSE_OPS = {"commit:", "close:"}  # what close_db_conn is expected to do to the environment
 DEV_OF_FLAG = {"raced": "RestoreRaceOnStartup", "snapfail": "BootstrapUnderSnapshot"}
@@ -234,6 +234,13 @@ def to_rollback_journal(path: Path) -> None:
 
 
 PROVS = ("built", "lib", "rbj")
+
+
+def drv_of(scn: dict):
+    """Build instructions of the creating context of a scenario (None: there is none)."""
+    if not scn.get("drv"):
+        return None
+    return {"boot": bool(scn["boot"]), "bak": bool(scn["bak"]), "bkd": bool(scn.get("bkd"))}
 
 
 def scn_key(scn: dict) -> tuple:
@@ -455,6 +462,8 @@ def install_wrappers(dbdir: str, sync) -> None:
     def connect(database, *a, **k):
         if not under(database):
             return o_connect(database, *a, **k)
+        if kind(database) != "main":   # backup_db's temporary file: not the connection of the context
+            return o_connect(database, *a, **k)
         k.setdefault("factory", Conn)
         con = sync("connect", "", lambda: o_connect(database, *a, **k), lambda r: "ok")
         sync.conn = con   # the connection of this context: its transaction state is reported with every operation
@@ -470,8 +479,11 @@ def child_main(idx: int, dbdir: str, order: list, cursor: bool, mode: str, rfd: 
     The context ends with close_db_conn (one step "close"; the environment operations
     performed inside it are its result).  life (free mode): ("now", 0) close at once,
     ("delay", s) close after s seconds, ("hold", 0) close when the parent says so.
-    build = {"boot": bool}: this is the creating context (driver): it creates the database
-    file at the path, stores and commits the pages, processes no page."""
+    build = {"boot": bool, "bak": bool, "bkd": bool}: this is the creating context (driver): it creates the
+    database file at the path, stores and commits the pages, processes no page.  bak: it stores the pages of version B,
+    writes the backup file with backup_db(), then stores version M (all before the workers start: a backup file is
+    present AND the context that wrote it still has the database open).  bkd: it calls backup_db() later, as one
+    schedule step "backup", while workers are open."""
     _quiet()
     out = os.fdopen(wfd, "w", buffering=1)
     rng = random.Random(seed)
@@ -542,6 +554,12 @@ def child_main(idx: int, dbdir: str, order: list, cursor: bool, mode: str, rfd: 
 
         if build is not None:
             ctx = Wtp(db_path=os.path.join(dbdir, DBNAME), quiet=True)
+            if build.get("bak"):
+                for t, ns, body, model in version_pages("B"):
+                    ctx.add_page(t, ns, body=body, model=model)
+                if build.get("boot"):
+                    ctx.add_page(BOOT_TITLE, 828, body="", model="Scribunto")
+                ctx.backup_db()
             for t, ns, body, model in version_pages("M"):
                 ctx.add_page(t, ns, body=body, model=model)
             if build.get("boot"):
@@ -551,6 +569,27 @@ def child_main(idx: int, dbdir: str, order: list, cursor: bool, mode: str, rfd: 
             if mode == "free":
                 send({"ev": "idle"})  # database ready: the workers may be started
                 wait_grant()
+            if build.get("bkd"):
+                # backup_db() of the creating context while workers are open: one schedule step (what it does to the
+                # environment - commit, temporary file, rename to the backup name - is not scheduled operation by operation)
+                if mode == "control":
+                    send({"ev": "want", "cls": "backup", "detail": ""})
+                    wait_grant()
+                elif build.get("bkd_delay"):
+                    time.sleep(build["bkd_delay"])
+                st["phase"] = "setup"
+                t0 = time.monotonic()
+                try:
+                    ctx.backup_db()
+                    bres, bexc = "ok", False
+                except BaseException as e:
+                    bres, bexc = type(e).__name__ + ": " + str(e)[:80], True
+                    exc = "backup_db: " + bres
+                st["phase"] = "run"
+                if mode == "control":
+                    send({"ev": "done", "cls": "backup", "result": bres, "exc": bexc, "tx": cur_tx()})
+                else:
+                    log.append(["backup", "", t0, time.monotonic(), bres, bexc, cur_tx()])
         else:
             ctx = Wtp(db_path=os.path.join(dbdir, DBNAME), quiet=True)
             it = None
@@ -751,8 +790,10 @@ def step(kids, c: Child, tracked, trace, sched_label=None, timeout=9.0):
     if cls == "write":
         timeout = max(timeout, 25.0)   # a writer may sit in SQLite's busy handler for the whole busy timeout (5 s)
     results = []
+    details = []
     t_step = time.monotonic()
     while True:
+        details.append(c.want.get("detail", ""))
         grant(c)
         ok = wait_for(kids, lambda: c.state in ("want", "finished", "dead"), timeout)
         results.append(c.last)
@@ -765,6 +806,8 @@ def step(kids, c: Child, tracked, trace, sched_label=None, timeout=9.0):
     ev = {"p": c.idx, "cls": cls, "r": summarise(cls, results, tracked), "n": len(results)}
     if cls == "script":
         ev["jm"] = jm_of_results(results)
+    if cls == "unlink":
+        ev["rm"] = sorted(set(details))   # which files of the database the step removed (main / wal / shm)
     ev["tx"] = tx_of_results(results)
     if time.monotonic() - t_step > 2:
         ev["secs"] = round(time.monotonic() - t_step, 1)   # diagnostics only (slowest_replays)
@@ -956,7 +999,8 @@ def run_free(scn_dir: str, work: Path, n: int, orders: list, cursor: bool, seed:
     kids = []
     try:
         if drv is not None:
-            d = spawn_one(0, str(work), [], False, "free", seed, 0, fds, life=tuple(drv["life"]), build={"boot": drv["boot"]})
+            d = spawn_one(0, str(work), [], False, "free", seed, 0, fds, life=tuple(drv["life"]),
+                          build={"boot": drv["boot"], "bak": bool(drv.get("bak"))})
             kids.append(d)
             if not wait_for(kids, lambda: d.state in ("idle", "finished", "dead"), 30) or d.state != "idle":
                 raise RuntimeError("the creating context could not build the database: " + json.dumps(d.final))
@@ -983,7 +1027,7 @@ def run_free(scn_dir: str, work: Path, n: int, orders: list, cursor: bool, seed:
     ops = []
     for c, f in zip(kids, allfinals):
         for cls, detail, t0, t1, res, exc, tx in (f or {}).get("log", []):
-            ops.append((t1, t0, c.idx, cls, {"result": res, "exc": exc, "tx": tx}))
+            ops.append((t1, t0, c.idx, cls, {"result": res, "exc": exc, "tx": tx, "detail": detail}))
     ops.sort(key=lambda x: x[0])
     base = ops[0][1] if ops else 0
     trace: list = []
@@ -1004,6 +1048,8 @@ def run_free(scn_dir: str, work: Path, n: int, orders: list, cursor: bool, seed:
     for ev in trace:
         if ev["cls"] == "script":
             ev["jm"] = jm_of_results(ev["_rs"])
+        if ev["cls"] == "unlink":
+            ev["rm"] = sorted({r["detail"] for r in ev["_rs"]})
         ev["tx"] = tx_of_results(ev["_rs"])
         ev["r"] = summarise(ev["cls"], ev.pop("_rs"), tracked)
     trace.sort(key=lambda e: e["t1"])
@@ -1101,7 +1147,7 @@ def replay_chunk(chunk):
             t_rep = time.monotonic()
             try:
                 trace, finals, store, diverged = run_controlled(scns[key], wd / "d", n, sched, orders, cursors_of(scn, n), cid,
-                                                                drv={"boot": bool(scn["boot"])} if scn.get("drv") else None)
+                                                                drv=drv_of(scn))
             except RuntimeError as e:
                 out.append({"cid": cid, "error": str(e)})
                 continue
@@ -1124,6 +1170,11 @@ def stress_params(sid: int, n: int, boot: bool, lifemode: str, drv: bool):
     offsets = [rng.random() * 0.02 for _ in range(n)]
     if lifemode == "hold":
         return orders, offsets, None, ({"boot": boot, "life": ("hold", 0.0)} if drv else None)
+    if lifemode == "restore":
+        # the creating context wrote the backup, went on and stays open until everybody is done; worker 1 starts at once (it
+        # restores), the others together once it is well past its start-up (the start-up race is the business of the other runs)
+        offsets = [0.0] + [1.2 + rng.random() * 0.05 for _ in range(n - 1)]
+        return orders, offsets, None, {"boot": boot, "bak": True, "life": ("hold", 0.0)}
     lrng = random.Random(common.seed() * 7717 + sid)
     offsets = [lrng.random() * 0.4 for _ in range(n)]
 
@@ -1146,7 +1197,7 @@ def stress_chunk(chunk):
     try:
         for sid, n, bak, boot, cursor, lifemode, drv, *more in chunk:
             prov, rdr = more if more else ("built", 0)
-            scn = {"bak": bak, "boot": boot, "cursor": cursor, "drv": bool(drv), "prov": prov, "rdr": rdr}
+            scn = {"bak": bak, "boot": boot, "cursor": cursor, "drv": bool(drv), "prov": prov, "rdr": rdr, "bkd": False}
             key = scn_key(scn)
             orders, offsets, lives, drvp = stress_params(sid, n, boot, lifemode, drv)
             try:
@@ -1188,9 +1239,15 @@ def clean_events(trace, relaxed=False):
     (controlled replays: a point = position in the performed sequence; free runs: the
     completion time, for write/commit the whole duration; relaxed: the whole duration of
     every operation)."""
+    def side(e):
+        # an unlink step (the restore): which side files of the database it did NOT remove (Trace_Workers: kw, ks)
+        rm = e.get("rm")
+        return {"kw": rm is not None and "wal" not in rm, "ks": rm is not None and "shm" not in rm}
+
     if relaxed:
-        return [{"p": e["p"], "cls": e["cls"], "r": e["r"], "t0": e["w0"], "t1": e["w1"], "jm": e.get("jm", ""), "tx": e.get("tx", "")} for e in trace]
-    return [{"p": e["p"], "cls": e["cls"], "r": e["r"], "t0": e.get("t0", i), "t1": e.get("t1", i), "jm": e.get("jm", ""), "tx": e.get("tx", "")}
+        return [dict({"p": e["p"], "cls": e["cls"], "r": e["r"], "t0": e["w0"], "t1": e["w1"], "jm": e.get("jm", ""), "tx": e.get("tx", "")}, **side(e))
+                for e in trace]
+    return [dict({"p": e["p"], "cls": e["cls"], "r": e["r"], "t0": e.get("t0", i), "t1": e.get("t1", i), "jm": e.get("jm", ""), "tx": e.get("tx", "")}, **side(e))
             for i, e in enumerate(trace, start=1)]
 
 
@@ -1249,6 +1306,35 @@ def tx_text(verdict, idle: list) -> str:
         parts.append(f"; in_transaction of {who(b['p'])} " + ("at the idle point before close_db_conn" if b["k"] == "idle" else "after operation " + str(b["i"]))
                      + f": {b['seen']}, model: {b['model']}")
     return "".join(parts)
+
+
+SIDE_RULE = ("model (Workers: SIDE FILES PER PATH, NoStaleSideFile): <db>-wal and <db>-shm belong to the database file whose connections created "
+             "them; the restore replaces the database file and removes BOTH from their paths first - a process that still has the replaced "
+             "database open carries on with its unlinked files, the restoring worker and every later one start a fresh pair on the restored "
+             "file.  An index (<db>-shm) that another live process has mapped is trusted as it is by whoever opens the database: left beside a "
+             "restored file, without its log, it points at frames the opener cannot read - 'disk I/O error' from Wtp(db_path=...) for the "
+             "restoring worker and for every later worker for as long as the other process lives (only an index nobody has mapped is rebuilt); a log "
+             "(<db>-wal) left there is replayed over the restored file - the workers read the pages of the replaced database")
+
+
+def side_text(verdict) -> str:
+    """The side-file part of a 'why': a restore that left <db>-wal / <db>-shm of the database it replaced (observed: the
+    unlink step of create_db's restore branch did not remove it), who had that database open, what TLC's replay of the
+    performed operations with that file left in place predicts."""
+    for b in (verdict or {}).get("bad") or []:
+        if b.get("cls") == "unlink" and b.get("kept"):
+            kept = " and ".join("<db>-" + k for k in sorted(b["kept"]))
+            live = sorted((verdict or {}).get("live") or [])
+            names = {"D": "the creating context (process 0, it wrote the backup with backup_db())", "idle": "a worker that had finished its pages and was still open"}
+            whom = ", ".join(names.get(x, f"a worker in the middle of its page work (at {x})") for x in live)
+            cons = {"shm": "a later first access trusted that stale index (Workers.StaleIndex): disk I/O error",
+                    "wal": "a later first access had that stale log laid over the restored file (Workers.JoinsOldLog): pages of the replaced database",
+                    "none": "nobody had it mapped when the database was next opened: rebuilt, no consequence in this run"}
+            return (f"; the restore performed by {who(b['p'])} (create_db, backup file present) LEFT THE STALE SIDE FILE {kept} of the database it "
+                    f"replaced in place" + (f" while that database was open in another live process: {whom}" if live else " (no other process had that database open)")
+                    + f"; TLC's replay of the performed operations with {kept} left there: {cons.get((verdict or {}).get('stale'), '')}, predicted worker results "
+                    + json.dumps(list((verdict or {}).get("res") or [])) + "; " + SIDE_RULE)
+    return ""
 
 
 def jm_text(verdict) -> str:
@@ -1318,15 +1404,18 @@ def judge(o: Outcome, case: dict, real: list, st_ok: bool, predicted, verdict, d
         if verdict and verdict["bad"]:
             b = verdict["bad"][0]
             whom = who(b["p"])
-            if b["cls"] == "close" and str(b["r"]).startswith("touch:"):
+            if b["cls"] == "unlink" and b.get("kept"):
+                first = ""   # said by side_text
+            elif b["cls"] == "close" and str(b["r"]).startswith("touch:"):
                 first = (f"; first performed operation that is not a behaviour of the model: close_db_conn of {whom} did "
                          f"{str(b['r'])[6:]} on the database files (model: a closing context commits and closes its connection, nothing else)")
             else:
                 first = (f"; first performed operation that is not a behaviour of the model: {b['cls']} of {whom} -> {b['r']} "
                          f"({b['why']}; model: {b['expected']})")
-        first += jm_text(verdict) + tx_text(verdict, idle)
+        sidet = side_text(verdict)
+        first += sidet + jm_text(verdict) + tx_text(verdict, idle)
         o.violation(dict(case, model=verdict), why + " (not explained by the as-is model" + first + ")",
-                    cls="unexplained" if case.get("kind") != "V-stress" else "unexplained (free-running)")
+                    cls=("stale side file left by the restore" if sidet else "unexplained") + ("" if case.get("kind") != "V-stress" else " (free-running)"))
     return "bad"
 
 
@@ -1335,7 +1424,7 @@ def pick(cases: list, budget: int, rng: random.Random) -> list:
     groups: dict = {}
     for c in cases:
         k = (json.dumps(c["scn"], sort_keys=True), tuple(c["res"]), c["store"], c["raced"], c["snapfail"],
-             json.dumps(c.get("life"), sort_keys=True), json.dumps(c.get("idlew")))
+             json.dumps(c.get("life"), sort_keys=True), json.dumps(c.get("idlew")), json.dumps(sorted(c.get("live") or [])), c.get("after"))
         groups.setdefault(k, []).append(c)
     for g in groups.values():
         rng.shuffle(g)
@@ -1371,6 +1460,27 @@ def pick_idle_first(cases: list, budget: int, rng: random.Random) -> list:
     out = []
     for boot in (False, True):
         out += pick([c for c in full if bool(c["scn"]["boot"]) == boot], nfull // 2, rng)
+    return out + pick(rest, budget - len(out), rng)
+
+
+def pick_live_first(cases: list, budget: int, rng: random.Random) -> list:
+    """For the restore-beside-a-live-process family (Gen_Workers focus restore): first one schedule of every class
+    (scenario, who had the replaced database open at the moment of the restore - the creating context, a worker paused
+    in the middle of its page work, an idle worker -, number of later first accesses while such a process was still
+    open); what is left of the budget goes to the lifetime patterns of those and to the schedules without such a meeting."""
+    if budget >= len(cases):
+        return list(cases)
+    groups: dict = {}
+    for c in cases:
+        if c["live"]:
+            groups.setdefault((json.dumps(c["scn"], sort_keys=True), tuple(sorted(c["live"])), c["after"]), []).append(c)
+    out = []
+    for k in sorted(groups):
+        if len(out) < budget:
+            g = groups[k]
+            out.append(g[rng.randrange(len(g))])
+    chosen = {json.dumps(c["sched"]) for c in out}
+    rest = [c for c in cases if json.dumps(c["sched"]) not in chosen]
     return out + pick(rest, budget - len(out), rng)
 
 
@@ -1465,9 +1575,15 @@ def run(tier: str) -> int:
             # (TLC: NoIdleTransaction fails), the third worker of the race is locked out (NoFailure fails); with two workers
             # nothing is observable; a holder without bound on its hold defeats the busy handler (LockWait)
             {"name": "Demo_Workers_idletxn", "module": "MC_Workers", "cfg": "Demo_Workers_idletxn.cfg", "workers": 4, "expect": "NoIdleTransaction"},
-            {"name": "Demo_Workers_idletxn_locked", "module": "MC_Workers", "cfg": "Demo_Workers_idletxn_locked.cfg", "workers": 4}]
+            {"name": "Demo_Workers_idletxn_locked", "module": "MC_Workers", "cfg": "Demo_Workers_idletxn_locked.cfg", "workers": 4},
+            # side files: a restore that leaves <db>-shm of the replaced database while another live process has it mapped -
+            # the restoring worker trusts an index without its log (TLC: "ioerr", NoFailure fails)
+            {"name": "Demo_Workers_keepsshm", "module": "MC_Workers", "cfg": "Demo_Workers_keepsshm.cfg", "workers": 4}]
     if thorough:
-        side += [{"name": "MC_skipped_commit_2_workers_invisible", "module": "MC_Workers", "cfg": "MC_Workers_skip_two.cfg", "workers": 4},
+        side += [{"name": "Demo_Workers_keepsshm_stale", "module": "MC_Workers", "cfg": "Demo_Workers_keepsshm_stale.cfg", "workers": 4, "expect": "NoStaleSideFile"},
+                 {"name": "Demo_Workers_keepswal", "module": "MC_Workers", "cfg": "Demo_Workers_keepswal.cfg", "workers": 4},
+                 {"name": "MC_keepsshm_database_closed_harmless_2", "module": "MC_Workers", "cfg": "MC_Workers_keepsshm_closed.cfg", "workers": 4},
+                 {"name": "MC_skipped_commit_2_workers_invisible", "module": "MC_Workers", "cfg": "MC_Workers_skip_two.cfg", "workers": 4},
                  {"name": "Demo_LockWait_idle", "module": "LockWait", "cfg": "Demo_LockWait_idle.cfg", "workers": 1, "expect": "NeverLocked"},
                  {"name": "Demo_Workers_rollback_rbj", "module": "MC_Workers", "cfg": "Demo_Workers_rollback_rbj.cfg", "workers": 4},
                  {"name": "MC_dropsmode_alone_2", "module": "MC_Workers", "cfg": "MC_Workers_dropsmode_alone.cfg", "workers": 4},
@@ -1475,8 +1591,10 @@ def run(tier: str) -> int:
                  {"name": "MC_ideal_3_all_provenances", "module": "MC_Workers", "cfg": "MC_Workers_ideal_T_P.cfg", "workers": 8},
                  {"name": "MC_ideal_3_bootcheck_never_hits_all_provenances", "module": "MC_Workers", "cfg": "MC_Workers_ideal_never_P.cfg", "workers": 8}]
     provcfg = "Gen_Workers_prov.cfg" if thorough else "Gen_Workers_provq.cfg"
+    rescfg = "Gen_Workers_restore_all.cfg" if thorough else "Gen_Workers_restore.cfg"
     jobs = {"gen": TlcJob([{"name": provcfg[:-4], "module": "Gen_Workers", "cfg": provcfg, "workers": 1},
-                           {"name": "Gen_Workers_boot3", "module": "Gen_Workers", "cfg": "Gen_Workers_boot3.cfg", "workers": 1}])}
+                           {"name": "Gen_Workers_boot3", "module": "Gen_Workers", "cfg": "Gen_Workers_boot3.cfg", "workers": 1},
+                           {"name": "Gen_Workers_restore", "module": "Gen_Workers", "cfg": rescfg, "workers": 1}])}
     try:
         return _run(o, thorough, rng, gens, side, provcfg, jobs)
     finally:
@@ -1520,6 +1638,20 @@ def _run(o, thorough, rng, gens, side, provcfg, jobs):
     o.extra["generated_schedules"][provcfg[:-4]] = len(cases)
     o.extra["generated_schedules"][provcfg[:-4] + ": commit meets a foreign open cursor"] = sum(1 for c in cases if c["meet"])
     gens += pick_meet_first(cases, 9999 if thorough else 26, random.Random(common.seed() * 37 + 5))
+    del cases, r
+    # S: a restore while another live process has the database open (the creating context that wrote the backup; workers that
+    # were open when it wrote it): who is attached to the replaced database x lifetimes x later openers
+    rescfg = "Gen_Workers_restore_all.cfg" if thorough else "Gen_Workers_restore.cfg"
+    r = gres["Gen_Workers_restore"]
+    if not r.ok:
+        raise common.TLCError("TLC did not complete cleanly on Gen_Workers/" + rescfg + "\n" + r.out[-1500:])
+    o.add_tlc("Gen_Workers_restore", r)
+    cases = r.cases
+    o.extra["generated_schedules"]["Gen_Workers_restore"] = len(cases)
+    o.extra["generated_schedules"]["Gen_Workers_restore: the replaced database was open in another process"] = sum(1 for c in cases if c["live"])
+    n_before = len(gens)
+    gens += pick_live_first(cases, 700 if thorough else 24, random.Random(common.seed() * 43 + 11))
+    o.extra["replayed_restore_live"] = sum(1 for c in gens[n_before:] if c["live"])
     del cases, r
     # T: three workers race for the bootstrap write (all look the page up before the first write) x lifetimes:
     # every order of the writes, every placement of every close (a worker that has written stays open - idle - or not)
@@ -1588,6 +1720,12 @@ def _run(o, thorough, rng, gens, side, provcfg, jobs):
             n = [2, 4][k % 2] if k < 2 else prng.randint(2, 12)
             prov = "lib" if k % 2 == 0 else "rbj"
             plan.append((20000 + k, n, prov == "lib" or prng.random() < 0.5, prng.random() < 0.4, True, "hold", False, prov, prng.randint(1, min(n, 2))))
+        # restore beside a live process, free-running: the creating context wrote the backup and is still open; worker 1 restores,
+        # the others open the restored database while the creating context lives on its replaced file
+        qrng = random.Random(common.seed() * 29 + 13)
+        for k in range(12 if thorough else 1):
+            n = 4 if k == 0 else qrng.randint(2, 10)
+            plan.append((30000 + k, n, True, qrng.random() < 0.4, False, "restore", True, "lib", 0))
         stress = pmap(stress_chunk, plan, nproc=3, chunk=1)
         phase("stress runs")
         # ---- contended first write (spec/LockWait.tla): the waiting worker must get the lock
@@ -1745,7 +1883,7 @@ def replay(path: str) -> int:
         if case["kind"] == "G":
             sched = [(p, l) for p, l in case["sched"]]
             trace, finals, store, diverged = run_controlled(scns[key], root / "d", case["workers"], sched, case["orders"], cursors_of(case["scn"], case["workers"]), 1,
-                                                            drv={"boot": key[1]} if case["scn"].get("drv") else None)
+                                                            drv=drv_of(case["scn"]))
             real = [classify_worker(f, ref[key]["results"], o_) for f, o_ in zip(finals, case["orders"])]
             for e in trace:
                 print("  ", e)
